@@ -235,6 +235,15 @@ Theorem C15_range_slices_collapse : forall pick marker rs,
 Proof. exact slices_collapse. Qed.
 Print Assumptions C15_range_slices_collapse.
 
+(** ** 8. The group the loops run over is the configured one (finite, generated from config.newFailoverGroup): the server
+    list is `uri` followed by the `failover` entries in the order they were written — any statement that sorts,
+    compacts or otherwise touches the list is rejected by the translator — and `required` becomes the strict flag.
+    (That the running code agrees is part of every correspondence case: the harness builds its groups through
+    config.newFailoverGroup and attaches its counters by URI.) *)
+Theorem C15_group_built_in_configured_order : group_built_in_configured_order = true.
+Proof. vm_compute. reflexivity. Qed.
+Print Assumptions C15_group_built_in_configured_order.
+
 (** ** Non-vacuity: [refused; 500 text; healthy; healthy] on the query API is answered by upstream 2 with its
     own marker; [bad_data 400] behind a timeout stops there; three dead upstreams of a required server give
     one Bug. *)
